@@ -1,6 +1,6 @@
 #!/bin/sh
 # vq.sh <unit> [function-pattern]: regenerate + run verus, print a compact error list
-cd /verif && python3 tools/vx.py "$1" >/dev/null || exit 2
+cd /verif && python3 tools/vx.py "$1" | grep UNDECIDED && exit 2
 cd build
 if [ -n "$2" ]; then SEL="--verify-root --verify-function $2"; fi
 verus "$1.rs" --triggers-mode silent --multiple-errors 15 $SEL 2>&1 | python3 -c "
